@@ -8,8 +8,10 @@ import (
 	"fmt"
 	"strconv"
 	"strings"
+	"unicode/utf16"
 
 	"github.com/robertkrimen/otto"
+	"golang.org/x/text/unicode/norm"
 
 	"verif/internal/ox"
 	"verif/internal/refstr"
@@ -24,7 +26,7 @@ func init() {
 			"oracle: internal/refstr, ES5.1 15.5 / B.2.3 algorithms over []uint16, conversions 8.12.8/9.x in spec step order; no use of package strings/unicode/utf16",
 			"case mapping oracle: simple one-to-one mappings of the Unicode Character Database taken from CPython's unicodedata (UCD " + refstr.CaseTableUCD + "), not from Go's package unicode which otto delegates to; code points with SpecialCasing.txt entries (sharp s, U+0130, final sigma, U+0149, ligatures ...) and supplementary-plane letters are generated but their result is not asserted",
 			"white space for trim = 7.2 WhiteSpace + 7.3 LineTerminator; U+180E and U+200B (category Zs only in some Unicode versions) are generated but not asserted",
-			"localeCompare: only '0 iff identical code-unit sequences', a non-zero finite number otherwise, and antisymmetry of the sign are asserted (collation order is implementation-defined, 15.5.4.9)",
+			"localeCompare: only '0 iff canonically equivalent (equal NFD forms; identical code units when a string has an unpaired surrogate)', a non-zero finite number otherwise, and antisymmetry of the sign are asserted (collation order is implementation-defined, 15.5.4.9)",
 			"B.2.3 substr does not call CheckObjectCoercible in ES5.1: null/undefined receivers of substr are generated but not asserted",
 			"Number->String of receivers/arguments is restricted to NaN, infinities, zeros, integers < 2^53 and n+0.5; String->Number to literals the model converts exactly (<= 15 significant digits)",
 			"non-strict code only; RegExp separators/search values belong to C10",
@@ -166,7 +168,7 @@ func expected(in *Input) (out Outcome, ok bool, why string) {
 			return evStr("rv") + "," + boolEv(zero) + "," + boolEv(neg) + "," + boolEv(pos)
 		}
 		t := traceEvent(tr.Events)
-		if r.N == 0 {
+		if r.N == 0 || canonicallyEquivalent(in) {
 			out.Events = []string{lc(true, false, false), t, rv(true, false, false)}
 		} else {
 			out.Events = []string{lc(false, true, false), t, rv(false, false, true)}
@@ -564,4 +566,34 @@ func argp(a []refstr.Val, i int) *refstr.Val {
 		return &a[i]
 	}
 	return &refstr.Val{K: "undef"}
+}
+
+// canonicallyEquivalent: 15.5.4.9 requires 0 for strings "that are considered canonically
+// equivalent by the Unicode standard", i.e. with equal canonical decompositions (NFD).
+func canonicallyEquivalent(in *Input) bool {
+	a, errA := refstr.ToString(&in.This, nil)
+	arg := refstr.Val{K: "undef"}
+	if len(in.Args) > 0 {
+		arg = in.Args[0]
+	}
+	b, errB := refstr.ToString(&arg, nil)
+	if errA != nil || errB != nil {
+		return false
+	}
+	wellFormed := func(u []uint16) bool {
+		for i := 0; i < len(u); i++ {
+			switch {
+			case u[i]&0xFC00 == 0xD800 && i+1 < len(u) && u[i+1]&0xFC00 == 0xDC00:
+				i++
+			case u[i]&0xF800 == 0xD800:
+				return false
+			}
+		}
+		return true
+	}
+	if !wellFormed(a) || !wellFormed(b) {
+		return false // unpaired surrogates have no decomposition: only identical sequences are equal
+	}
+	sa, sb := string(utf16.Decode(a)), string(utf16.Decode(b))
+	return norm.NFD.String(sa) == norm.NFD.String(sb)
 }
